@@ -110,6 +110,63 @@ def where_idx_shift(x, m):
     return a
 def pd_isna_fn(x, m): return pd.isna(m.filled(np.nan))
 def to_timedelta_seconds(x, m): return pd.to_timedelta(x * 40000, unit='s').seconds.to_numpy()
+def data_view_store(x, m):
+    a = np.ma.array(x.copy(), mask=m.mask.copy())
+    a.data[x > 2] = 0
+    return a
+def getdata_view_store(x, m):
+    a = np.ma.array(x.copy(), mask=m.mask.copy())
+    np.ma.getdata(a)[1:3] = 7
+    return a
+def putmask_ma(x, m):
+    a = np.ma.array(x.copy(), mask=m.mask.copy())
+    np.putmask(a, x > 2, 9)
+    return a
+def putmask_nd(x, m):
+    a = x.copy()
+    np.putmask(a, np.ma.getmaskarray(m), 9)
+    return a
+def putmask_values_array(x, m):
+    a = x.copy()
+    np.putmask(a, x > 2, x * 10)
+    return a
+def putmask_flags(x, m):
+    f = np.ma.ones(x.size, dtype='uint8')
+    np.putmask(f, np.ma.getmaskarray(m), 9)
+    return f
+def copyto_where(x, m):
+    a = np.ma.array(x.copy(), mask=m.mask.copy())
+    np.copyto(a.data, 5.0, where=x > 2)
+    return a
+def place_one(x, m):
+    a = x.copy()
+    np.place(a, x > 2, 0)
+    return a
+def put_index(x, m):
+    a = x.copy()
+    np.put(a, np.flatnonzero(x > 2), 0)
+    return a
+def view_masked(x, m):
+    f = np.full(x.size, 1, dtype='uint8')
+    v = f.view(np.ma.MaskedArray)
+    v[x > 2] = 4
+    return v
+def view_masked_base(x, m):
+    f = np.full(x.size, 1, dtype='uint8')
+    v = f.view(np.ma.MaskedArray)
+    v[x > 2] = 4
+    return f
+def subtract_ufunc_ma(x, m): return np.subtract(m[1:], m[:-1])
+def subtract_ufunc_ma_data(x, m): return np.subtract(m[1:], m[:-1]).data
+def ma_true_divide(x, m): return np.ma.true_divide(m, x - 2)
+def ma_subtract_fn_data(x, m): return np.ma.subtract(m[1:], m[:-1]).data
+def less_ufunc(x, m): return np.logical_or(np.less(m, 2), np.greater_equal(m, 4))
+def append_scalar(x, m): return np.append(np.insert(x, 0, 1), 366)
+def concat_promote(x, m): return np.concatenate((np.zeros(2, dtype=bool), (x > 2)))
+def ellipsis_slice(x, m): return np.subtract(x[..., 1:], x[..., :-1])
+def datetime_subtract(x, m):
+    t = (x * 1000).astype('int64').astype('datetime64[s]')
+    return np.subtract(t[1:], t[:-1]).astype('timedelta64[s]').astype(float)
 '''
 
 INPUTS = [
